@@ -258,6 +258,16 @@ def run(ctx, name, kind, **kw):
                 a = rng.choice(big)
                 n, key, cls = a * a, "square_beyond", "factorization.beyond_table"
             chk_factor(ctx, n, cls, key="%s|%d" % (key, n.bit_length()))
+            if i % 3 == 0:
+                # a caller may do what it likes with the returned list: vandalise it, then ask again
+                try:
+                    got1 = NT.factorization(n)
+                    got1.reverse()
+                    got1.append((1, 1))
+                    del got1[0]
+                except Exception:
+                    pass
+                chk_factor(ctx, n, "factorization.after_caller_mutated_result", key="%s|%d" % (key, n.bit_length()))
     elif kind == "consts":
         # dictionary of the integer literals found in numbertheory.py's own code: each constant, its neighbours and its
         # prime factors (reference factorisation) are offered to is_prime / next_prime / factorization
